@@ -1,53 +1,24 @@
 (** C16 — the session automaton of Model/Lmtp.v satisfies the dialogue checker
-    of Spec/LmtpDialog.v on every input on which none of the finding classes
-    is hit.  Proof: simulation between the server's state and the abstract
-    transaction phase. *)
+    of Spec/LmtpDialog.v on EVERY input (the three finding classes of the
+    first round are repaired in raven; no classification is left).  Proof:
+    simulation between the server's state and the abstract transaction phase. *)
 From Coq Require Import String Ascii List Bool ZArith NArith Lia.
 From Raven Require Import Base.GoStr Model.Lmtp Spec.LmtpDialog.
 Import ListNotations.
 Local Open Scope Z_scope.
-
-Inductive finding := NullSender | OversizeDesync | Single554.
-
-(** the finding class of a single reply of the model: identified by the call
-    site that produced it *)
-Definition classify_ev (e : ev) : option finding :=
-  match e with
-  | Reply TMail code a => if N.eqb code 250 && is_nil a then Some NullSender else None
-  | Reply TDataErrSize _ _ => Some OversizeDesync
-  | Reply TDataErrMsg _ _ => Some Single554
-  | _ => None
-  end.
-
-Fixpoint classify_evs (evs : list ev) : option finding :=
-  match evs with
-  | [] => None
-  | e :: t => match classify_ev e with Some f => Some f | None => classify_evs t end
-  end.
-
-Lemma classify_evs_app a b :
-  classify_evs (a ++ b) = None <-> classify_evs a = None /\ classify_evs b = None.
-Proof.
-  induction a as [|e a IH]; cbn; [tauto|].
-  destruct (classify_ev e); [split; [discriminate|intros [X _]; discriminate]|exact IH].
-Qed.
 
 Section Sim.
   Variable accepts : str -> bool.
   Variable delivers : str -> str -> bool.
   Variable c : cfg.
 
-  (** input -> class: the first finding class hit by the session on the stream *)
-  Definition classify (ls : list str) : option finding :=
-    classify_evs (fst (run accepts delivers c st0 MCmd ls)).
-
   Definition sim (s : st) (m : mode) (p : phase) : Prop :=
     greeted p = negb (is_nil (helo s)) /\
-    in_tx p = negb (is_nil (mail_from s)) /\
+    in_tx p = mail_seen s /\
     accepted p = rcpts s /\
     match m with
     | MCmd => awaiting p = None
-    | MData _ _ => awaiting p = Some (rcpts s) /\ rcpts s <> []
+    | MData _ => awaiting p = Some (rcpts s) /\ rcpts s <> []
     end.
 
   Lemma sim0 : sim st0 MCmd phase0.
@@ -65,6 +36,17 @@ Section Sim.
     - rewrite (IH (await p (r' :: rs'))); [reflexivity|discriminate|reflexivity].
   Qed.
 
+  Lemma refuse_run maxr code : forall rs p,
+    rs <> [] -> awaiting p = Some rs ->
+    dialog_run maxr p (map (fun r => Refuse r code) rs) = Some (end_tx p).
+  Proof.
+    induction rs as [|r rs IH]; intros p N A; [congruence|].
+    cbn [map dialog_run]. unfold dialog_step. rewrite A. rewrite str_eqb_refl.
+    destruct rs as [|r' rs'].
+    - reflexivity.
+    - rewrite (IH (await p (r' :: rs'))); [reflexivity|discriminate|reflexivity].
+  Qed.
+
   Ltac case_if :=
     match goal with
     | |- context [if ?b then _ else _] => let E := fresh "E" in destruct b eqn:E
@@ -74,11 +56,10 @@ Section Sim.
   Lemma handle_sim s p cmd args s' evs nx :
     sim s MCmd p ->
     handle c s cmd args = (s', evs, nx) ->
-    classify_evs evs = None ->
     exists p', dialog_run (max_rcpts c) p evs = Some p' /\
-               sim s' (match nx with NData => MData [] 0 | _ => MCmd end) p'.
+               sim s' (match nx with NData => MData d0 | _ => MCmd end) p'.
   Proof.
-    intros (G & T & A & W) H CL. cbn in W.
+    intros (G & T & A & W) H. cbn in W.
     unfold handle in H.
     repeat (case_if || match type of H with context [match ?x with Some _ => _ | None => _ end] => destruct x eqn:? end).
     all: inversion H; subst; clear H.
@@ -86,7 +67,9 @@ Section Sim.
     all: try (rewrite G, T); try rewrite T; try rewrite A; unfold below_limit; try rewrite A.
     all: repeat match goal with
              | H : is_nil ?x = _ |- _ => rewrite H
-             | H : negb (is_nil ?x) = _ |- _ => apply negb_false_iff in H; rewrite H
+             | H : negb ?x = true |- _ => apply negb_true_iff in H; rewrite H
+             | H : negb ?x = false |- _ => apply negb_false_iff in H; rewrite H
+             | H : mail_seen ?x = _ |- _ => rewrite H
              end.
     all: cbn [negb andb orb].
     all: try match goal with E : (?a >=? ?b) = true |- _ =>
@@ -97,9 +80,6 @@ Section Sim.
            replace (a <? b) with true by (symmetry; apply Z.ltb_lt; lia) end.
     all: try match goal with E : is_nil_l ?l = _ |- _ =>
            unfold is_nil_l in E; destruct l eqn:?; try discriminate E end.
-    (* MAIL accepted: the sender is not empty, otherwise the class NullSender *)
-    all: try match goal with CL : classify_evs [Reply TMail 250 ?a] = None |- _ =>
-           cbn in CL; destruct (is_nil a) eqn:?; [discriminate CL|] end.
     all: cbn [negb andb orb nonempty].
     all: eexists; (split; [reflexivity|]); unfold sim; cbn; repeat split; auto; try congruence.
     all: match goal with E : is_nil ?a = false |- true = negb (is_nil ?a) => now rewrite E end.
@@ -108,24 +88,22 @@ Section Sim.
   Lemma step_sim s m p line s' m' evs q :
     sim s m p ->
     step accepts delivers c s m line = (s', m', evs, q) ->
-    classify_evs evs = None ->
     exists p', dialog_run (max_rcpts c) p evs = Some p' /\ sim s' m' p'.
   Proof.
-    intros S H CL. destruct m as [|buf size]; cbn [step] in H.
+    intros S H. destruct m as [|d]; cbn [step] in H.
     - destruct (parse_cmd line) as [[cmd args]|].
       + destruct (handle c s cmd args) as [[s1 e1] nx] eqn:Hh.
         destruct (handle_sim _ _ _ _ _ _ _ S Hh) as (p' & R & S').
-        { destruct nx; injection H as <- <- <- <-; exact CL. }
         exists p'. destruct nx; injection H as <- <- <- <-; auto.
       + injection H as <- <- <- <-. exists p. split; [reflexivity|exact S].
-    - destruct (data_line (max_size c) buf size line).
-      + unfold finish_data in H. destruct (accepts buf).
-        * injection H as <- <- <- <-. destruct S as (G & T & A & W & NE).
-          exists (end_tx p). split; [apply deliver_run; auto|].
-          unfold sim; cbn. repeat split; auto.
-        * injection H as <- <- <- <-. discriminate.
+    - destruct (data_line (max_size c) d line).
+      + destruct S as (G & T & A & W & NE).
+        assert (SR : sim (reset s) MCmd (end_tx p)) by (unfold sim; cbn; repeat split; auto).
+        unfold finish_data, reject in H.
+        destruct (data_end d); [destruct (accepts data)|..]; injection H as <- <- <- <-;
+          exists (end_tx p); (split; [|exact SR]);
+          first [apply deliver_run; auto | apply refuse_run; auto].
       + injection H as <- <- <- <-. exists p. split; [reflexivity|exact S].
-      + injection H as <- <- <- <-. discriminate.
   Qed.
 
   Lemma dialog_run_app maxr a : forall p b,
@@ -138,30 +116,27 @@ Section Sim.
 
   Lemma run_sim ls : forall s m p,
     sim s m p ->
-    classify_evs (fst (run accepts delivers c s m ls)) = None ->
     exists p', dialog_run (max_rcpts c) p (fst (run accepts delivers c s m ls)) = Some p'.
   Proof.
-    induction ls as [|l ls IH]; intros s m p S CL; cbn [run] in *.
+    induction ls as [|l ls IH]; intros s m p S; cbn [run] in *.
     - destruct m; cbn [fst]; [exists p; reflexivity|].
       destruct S as (_ & _ & _ & W & NE). exists p. cbn. unfold dialog_step. rewrite W.
       destruct (rcpts s); [congruence|reflexivity].
     - destruct (step accepts delivers c s m l) as [[[s1 m1] e1] q] eqn:Hs.
+      destruct (step_sim _ _ _ _ _ _ _ _ S Hs) as (p' & R & S').
       destruct q.
-      + cbn [fst] in *. destruct (step_sim _ _ _ _ _ _ _ _ S Hs CL) as (p' & R & _). eauto.
+      + cbn [fst]. eauto.
       + destruct (run accepts delivers c s1 m1 ls) as [e r] eqn:Hr. cbn [fst] in *.
-        apply classify_evs_app in CL as [C1 C2].
-        destruct (step_sim _ _ _ _ _ _ _ _ S Hs C1) as (p' & R & S').
         specialize (IH s1 m1 p' S'). rewrite Hr in IH. cbn [fst] in IH.
-        destruct (IH C2) as (p'' & R'). exists p''. rewrite dialog_run_app, R. exact R'.
+        destruct IH as (p'' & R'). exists p''. rewrite dialog_run_app, R. exact R'.
   Qed.
 
   (** (a)(c)(d)(e) on the reply trace, for every stream of lines *)
   Theorem dialog_ok_run ls :
-    classify ls = None ->
     dialog_ok (max_rcpts c) (fst (run accepts delivers c st0 MCmd ls)) = true.
   Proof.
-    intros CL. unfold dialog_ok.
-    destruct (run_sim ls st0 MCmd phase0 sim0 CL) as (p' & ->). reflexivity.
+    unfold dialog_ok.
+    destruct (run_sim ls st0 MCmd phase0 sim0) as (p' & ->). reflexivity.
   Qed.
 
   (** (c) the recipient limit as an invariant of the server's state *)
@@ -171,7 +146,7 @@ Section Sim.
     step accepts delivers c s m line = (s', m', evs, q) ->
     Z.of_nat (length (rcpts s')) <= max_rcpts c.
   Proof.
-    intros M B H. destruct m as [|buf size]; cbn [step] in H.
+    intros M B H. destruct m as [|d]; cbn [step] in H.
     - destruct (parse_cmd line) as [[cmd args]|]; [|injection H as <- <- <- <-; exact B].
       destruct (handle c s cmd args) as [[s1 e1] nx] eqn:Hh.
       assert (Z.of_nat (length (rcpts s1)) <= max_rcpts c).
@@ -181,9 +156,9 @@ Section Sim.
         rewrite app_length. cbn [length].
         match goal with E : (_ >=? _) = false |- _ => rewrite Z.geb_leb in E; apply Z.leb_gt in E end. lia. }
       destruct nx; injection H as <- <- <- <-; auto.
-    - destruct (data_line (max_size c) buf size line).
-      + unfold finish_data in H. destruct (accepts buf); injection H as <- <- <- <-; cbn; auto.
-      + injection H as <- <- <- <-; auto.
+    - destruct (data_line (max_size c) d line).
+      + unfold finish_data, reject in H.
+        destruct (data_end d); [destruct (accepts data)|..]; injection H as <- <- <- <-; cbn; lia.
       + injection H as <- <- <- <-; auto.
   Qed.
 
